@@ -293,9 +293,16 @@ def symbol_part(rep, tier):
                   ('make_vcard', dict(name='Doe;' + t, displayname=t, org=t), helpers.make_vcard_data),
                   ('make_email', dict(to='a@example.org', subject=t, body=t), helpers.make_make_email_data),
                   ('make_email', dict(to=t + '@example.org', cc='c@example.org'), helpers.make_make_email_data)]
+    def refused(fname, kw, e):
+        rep.violation({'kind': 'helpers', 'module': 'props_helpers', 'spec': {'helper': fname, 'kw': {k: str(v) for k, v in kw.items()}},
+                       'failing_clauses': ['helper_refuses_valid_input']}, f'{fname}({kw}) raised {type(e).__name__}: {str(e)[:100]}')
     for fname, kw, datafn in cases:
-        qr = getattr(helpers, fname)(**kw)
-        payload = datafn(**kw)
+        try:
+            qr = getattr(helpers, fname)(**kw)
+            payload = datafn(**kw)
+        except Exception as e:  # noqa: a valid request that is refused is a finding, not a failure of the harness
+            refused(fname, kw, e)
+            continue
         c = symobs.call('make_qr', payload)
         o = {'_call': c, 'props': ['C01'], 'outcome': {'status': 'ok'}, 'exp': symobs.expectation(payload, {}), 'res': symobs.project_symbol(qr),
              '_cost': len(qr.matrix) ** 2}
@@ -304,9 +311,18 @@ def symbol_part(rep, tier):
                  dict(name='A' * 70, iban='D' * 34, amount='999999999.99', text='€' * 80, bic='BFSWDE33BER', purpose='CHAR'),
                  dict(name='Иван', iban='DE33100205000001194700', amount=5, reference='R' * 35),
                  dict(name='N', iban='DE331', amount='0.01', text='t')]
+    # text that is not Latin-1 but fits another character set of the EPC list (Greek, Cyrillic, Latin-2, Latin-9): the symbol carries the
+    # bytes of the character set the payload announces
+    epc_specs += [dict(name=nm, iban='DE33100205000001194700', amount='1', text=tx) for nm, tx in
+                  (('\u0393\u03b9\u03ce\u03c1\u03b3\u03bf\u03c2', '\u03a4\u03b9\u03bc\u03bf\u03bb\u03cc\u03b3\u03b9\u03bf 7'), ('\u0141ukasz \u017b\xf3\u0142\u0107', 'Faktura \u0141\xf3d\u017a'),
+                   ('Fran\xe7ois', '\u20ac 12 pay\xe9'), ('\u0112riks', 'R\u0113\u0137ins'), ('\u0418\u0432\u0430\u043d', '\u0421\u0447\u0451\u0442 5'))]
     for kw in epc_specs:
-        qr = helpers.make_epc_qr(**kw)
-        data = helpers._make_epc_qr_data(**kw)
+        try:
+            qr = helpers.make_epc_qr(**kw)
+            data = helpers._make_epc_qr_data(**kw)
+        except Exception as e:  # noqa
+            refused('make_epc_qr', kw, e)
+            continue
         c = symobs.call('make_qr', data, error='m', boost_error=False)
         o = {'_call': c, 'props': ['C01'], 'outcome': {'status': 'ok'}, 'exp': symobs.expectation(data, {}), 'res': symobs.project_symbol(qr),
              '_cost': len(qr.matrix) ** 2, '_epc': True}
